@@ -689,6 +689,8 @@ class UnytDomain:
         fq = modname + "." + name
         if modname in MODULE_ATTR_HOOKS:
             return MODULE_ATTR_HOOKS[modname](it, name)
+        if fq in GLOBAL_HOOKS:
+            return GLOBAL_HOOKS[fq](it)
         if modname == "unyt.dimensions":
             if name in BASE_DIMS:
                 return SDim.base(name)
@@ -960,6 +962,9 @@ class UnytDomain:
 # module name -> f(it, attribute): modules whose namespace is filled at import time by code that
 # is not executed here (unyt.physical_constants); registered by the contracts that need them
 MODULE_ATTR_HOOKS = {}
+# fully qualified global name -> f(it): module-level objects built by code that is not executed
+# here (a registry filled by a metaclass, ...)
+GLOBAL_HOOKS = {}
 
 
 class SNewVersion(SV):
